@@ -111,6 +111,18 @@ def render_func(prog, fname):
     for _ in range(f.get("comment", 0)):
         lines.append("    # edited comment line")
     rs = []
+    if f.get("tmpl"):
+        # a text template that contains the comment character (SQL / YAML / Markdown style), part of the result
+        n, style = f["tmpl"]["n"], f["tmpl"].get("style", "triple")
+        if style == "triple":
+            lines.append('    tq = """select a, b')
+            lines.append(f"    from t  # tenant_{n}")
+            lines.append('    where x = 1"""')
+        elif style == "esc":
+            lines.append(f'    tq = "it\\"s # v{n}"')
+        else:
+            lines.append(f"    tq = 'colour #ff{n:04d}'")
+        rs.append("tq")
     for i, it in enumerate(f["body"]):
         t = it["t"]
         r = f"r{i}"
@@ -175,7 +187,11 @@ def render_func(prog, fname):
                 else:
                     lines.append("    " + stmt)
         elif t == "load":
-            lines.append(f"    {r} = dds.load({spell_path(it['path'], it.get('pspell'))!r})")
+            if it.get("thread"):
+                # the load is made by a thread started by the evaluated code (and joined before going on)
+                lines.append(f"    {r} = in_thread(lambda: dds.load({spell_path(it['path'], it.get('pspell'))!r}))")
+            else:
+                lines.append(f"    {r} = dds.load({spell_path(it['path'], it.get('pspell'))!r})")
         elif t == "lazy":
             # a function-local (lazy) import of an accepted library package that nothing else imports
             lines.append("    import lzlib.core")
@@ -238,7 +254,7 @@ def _imports_for(prog, m):
         # rec / ident / Box are installed in builtins by simutil: the functions then have no external name at all
         lines = ["import dds", "import simutil"]
     else:
-        lines = ["import dds", "from simutil import rec, ident, Box"]
+        lines = ["import dds", "from simutil import rec, ident, Box, in_thread"]
     for k, em in enumerate(prog.get("extmods", ["extlib"])):
         lines.append(f"import {em} as extlib{k or ''}")
     spells = {it.get("spell", "dds") for fn in funcs_in(prog, m) for it in prog["funcs"][fn]["body"] if it["t"] == "eval"}
@@ -299,6 +315,11 @@ def _imports_for(prog, m):
     return lines
 
 
+def _path_value(path, form):
+    """A module-level path constant: a str, or (form "obj") a pathlib.Path object."""
+    return f"__import__('pathlib').Path({path!r})" if form == "obj" else repr(path)
+
+
 def has_lazy(prog):
     return any(it["t"] == "lazy" for f in prog["funcs"].values() for it in f["body"])
 
@@ -332,10 +353,10 @@ def render(prog):
         for fn in funcs_in(prog, m):
             f = prog["funcs"][fn]
             if f["kind"] == "data" and f.get("pathform", "lit") != "lit":
-                lines.append(f"PATH_{fn} = {f['path']!r}")
+                lines.append(f"PATH_{fn} = {_path_value(f['path'], f['pathform'])}")
             for i, it in enumerate(f["body"]):
                 if it["t"] == "keep" and it.get("pathform", "lit") != "lit":
-                    lines.append(f"PATH_{fn}_{i} = {it['path']!r}")
+                    lines.append(f"PATH_{fn}_{i} = {_path_value(it['path'], it['pathform'])}")
         for sn in shadow_names(prog, m):
             lines.append("")
             lines.extend(shadow_text(sn))
@@ -390,6 +411,25 @@ class Box(object):
         return self.v
 
 
+def in_thread(fn):
+    import threading
+
+    box = {}
+
+    def run():
+        try:
+            box["v"] = fn()
+        except BaseException as e:  # noqa
+            box["e"] = e
+
+    t = threading.Thread(target=run)
+    t.start()
+    t.join()
+    if "e" in box:
+        raise box["e"]
+    return box["v"]
+
+
 def rec(name):
     f = FAIL
     if f is not None and f["at"] == name:
@@ -401,7 +441,7 @@ def rec(name):
 
 import builtins as _b
 
-_b.rec, _b.ident, _b.Box = rec, ident, Box
+_b.rec, _b.ident, _b.Box, _b.in_thread = rec, ident, Box, in_thread
 '''
 
 
